@@ -337,6 +337,44 @@ pub fn run(ctx: &Ctx) -> i32 {
     });
     ctx.eval(pc.len());
     ctx.cov("produce_consume_cases", J::i(pc.len()));
+    // (3b) long runs of consecutive symbols in ONE request: whatever per-run state a producer keeps (running
+    // seeds, running ids, strength-reduced arithmetic) is carried across 10^5 consecutive ISIs - at the start
+    // of the range, somewhere inside, and ending exactly at ESI 2^24-1 - and must neither panic (overflow
+    // checks are on in the checked build) nor drift from the symbol-at-a-time answers
+    let long_runs = AtomicU64::new(0);
+    let run_len: u32 = ctx.args.pick(100_000, 1_000_000);
+    let long_ks = [10usize, 26, 101, 477];
+    par_for(long_ks.len() * 3, |i| {
+        let K = long_ks[i / 3];
+        let mut rng = Rng::derive(ctx.seed(), 1519, i as u64);
+        let start: u32 = match i % 3 {
+            0 => 0,
+            1 => rng.range(1, (1 << 24) - K as u64 - run_len as u64 - 1) as u32,
+            _ => (1 << 24) - K as u32 - run_len,
+        };
+        let data = rng.bytes(K);
+        let case = J::obj(vec![("kind", J::s("long-run")), ("K", J::i(K)), ("start", J::i(start)), ("n", J::i(run_len))]);
+        let r = guarded(|| {
+            let enc = raptorq::SourceBlockEncoder::new(0, &Oti::new(K as u64, 1, 1, 1, 1), &data);
+            let run = enc.repair_packets(start, run_len);
+            let mut bad = None;
+            for j in (0..run_len).step_by(997).chain([run_len - 1]) {
+                if run.get(j as usize) != enc.repair_packets(start + j, 1).first() {
+                    bad = Some(j);
+                    break;
+                }
+            }
+            (run.len(), bad)
+        });
+        long_runs.fetch_add(1, Relaxed);
+        match r {
+            Err(m) => ctx.violation(format!("C15 long-run panic K={K} start={start}"), format!("K={K}: producing the {run_len} consecutive repair symbols from repair index {start} (ESIs {}..={}) in one request panicked: {}", K as u32 + start, K as u32 + start + run_len - 1, short(&m, 120)), case),
+            Ok((n, bad)) if n != run_len as usize || bad.is_some() => ctx.violation(format!("C15 long-run drift K={K} start={start}"), format!("K={K}: one request for {run_len} consecutive repair symbols from repair index {start} returned {n} packets; element {bad:?} differs from the symbol produced on its own"), case),
+            _ => {}
+        }
+    });
+    ctx.eval(long_ks.len() * 3);
+    ctx.cov("long_runs_of_consecutive_symbols_in_one_request", J::obj(vec![("runs", J::i(long_runs.load(Relaxed))), ("symbols_per_run", J::i(run_len))]));
     // consuming through the object decoder: objects whose short blocks have exactly a Table-2 size and whose
     // long blocks (one symbol more) live in the next table row - every block must be decoded with the
     // parameters of its own K
@@ -393,7 +431,7 @@ pub fn run(ctx: &Ctx) -> i32 {
     ctx.floor("tuples_checked_floor", nt, 1_000_000);
     let _ = bad;
     ctx.finish(
-        "(1) every K in 0..=56403 (ascending per thread, then again descending, as row-jumping pairs around every table boundary and in random order, because the look-ups must be functions of K alone): K' = least table size >= K, S and W prime, P1 = least prime >= P, B >= 1, P >= H >= 2, L < 65536, and the crate's parameter functions equal Table 2; (2) Tuple[K',X] from the crate = RFC 5.3.5.4 computed in u64 and in range, for (quick) the first and last 5000 X, 20000 random X and the algebraically derived overflow-sensitive X of every K' / (thorough) every X in 0..2^24+K' for all 477 K'; all 1024 entries of V0..V3 probed through rand; (3) repair packets for the overflow-sensitive ISIs, ESI 2^24-1 and (release) random ESIs of blocks with W > 32768 are produced, equal Enc with the reference tuple, and are consumed by the decoder without panic; objects whose blocks fall into two neighbouring Table-2 rows (KS = a table size, KL = KS + 1) are consumed through the object decoder. Run in the release build and again in the checked build (debug assertions + overflow checks)",
+        "(1) every K in 0..=56403 (ascending per thread, then again descending, as row-jumping pairs around every table boundary and in random order, because the look-ups must be functions of K alone): K' = least table size >= K, S and W prime, P1 = least prime >= P, B >= 1, P >= H >= 2, L < 65536, and the crate's parameter functions equal Table 2; (2) Tuple[K',X] from the crate = RFC 5.3.5.4 computed in u64 and in range, for (quick) the first and last 5000 X, 20000 random X and the algebraically derived overflow-sensitive X of every K' / (thorough) every X in 0..2^24+K' for all 477 K'; all 1024 entries of V0..V3 probed through rand; (3) repair packets for the overflow-sensitive ISIs, ESI 2^24-1 and (release) random ESIs of blocks with W > 32768 are produced, equal Enc with the reference tuple, and are consumed by the decoder without panic; 12 runs of 10^5 (thorough 10^6) consecutive repair symbols in one request (start, middle and end of the 24-bit range) must not panic and must equal the symbols produced one at a time; objects whose blocks fall into two neighbouring Table-2 rows (KS = a table size, KL = KS + 1) are consumed through the object decoder. Run in the release build and again in the checked build (debug assertions + overflow checks)",
         &["Table 2, V0..V3 and the degree thresholds from the golden copy", "reference Rand/Deg/Tuple in u64 arithmetic"],
         vec![("exhaustive", J::B(exhaustive))],
     )
